@@ -79,19 +79,6 @@ class Operation(Contract):
     def raises(self, S, case, env):
         return {IndexError: False}
 
-    def known_regions(self, S, case, env):
-        # open finding recorded under C06 / C07: an operand whose axis on a shared dimension is EMPTY cannot be reindexed onto a
-        # non-empty common axis (reindex_axis raises IndexError)
-        # (phrased over the common axis the callee returned, as in Align: that it is non-empty follows from the operands only
-        # through union's set semantics, which callers cannot assume)
-        da, db = env["dims"]
-        try:
-            common = self._common(S, env)
-        except Exception:
-            return {}
-        conds = [S.land(S.n(env["labels"][t][d]) == 0, S.n(common[d]) > 0) for t, ds in ((0, da), (1, db)) for d in ds if d in common]
-        return {"empty-operand-axis": S.lor(*conds)} if conds else {}
-
     def _common(self, S, env):
         calls = S.calls("GetAlignedAxes")
         if calls:
